@@ -195,7 +195,7 @@ impl Check for C07Check {
     fn components(&self) -> Value {
         json!({"real": ["alpha_g_detector::chronobox::chronobox_fifo (winnow parser)", "FifoEntry accessors"],
                "model": ["Chronobox FIFO stream generator", "DAQ reader cutting the stream into pieces", "reference word-at-a-time parser"],
-               "simulated": [], "stub": []})
+               "simulated": ["allocator limit: the processes run under a 4 GiB address-space limit, so a wild allocation fails (abort) instead of being over-committed"], "stub": []})
     }
     fn count(&self, tier: Tier) -> u64 {
         match tier {
